@@ -321,8 +321,10 @@ func (e *Engine) verifyFunc(fn *ssa.Function, fc *FuncContract) (rep *FuncReport
 			}
 			fr.obligation("ensures", labelOr(en.Label, i+1), r.cond, t, en.Text)
 		}
-		if fc.HasAsg {
+		if fc.HasAsg && !fc.TrustFrame {
 			x.checkFrame(fr, fc, r, envPre)
+		} else if fc.TrustFrame {
+			c.Trust("frame (assigns clause) of " + fc.Key + " is assumed, not checked against its body")
 		}
 	}
 	// vacuity: some return must be reachable under the precondition
